@@ -49,7 +49,7 @@ def one(name):
         rc, out = sh(f"/verif/tools/regen.sh {work}", timeout=900)
         res["baseline_ok"] = rc == 0
         t0 = time.time()
-        rc, out = sh(f"./check {prop} quick", cwd="/verif", extra={"VERIF_REPO": work, "VERIF_OUT": "/tmp/mutwork/reout-" + name}, timeout=3000)
+        rc, out = sh(f"./check {prop} quick", cwd=SNAP, extra={"VERIF_REPO": work, "VERIF_OUT": "/tmp/mutwork/reout-" + name}, timeout=3000)
         lines = out.splitlines()
         viol = [l for l in lines if l.startswith("VIOLATION")]
         first = ""
@@ -63,6 +63,13 @@ def one(name):
         shutil.rmtree("/tmp/mutwork/reout-" + name, ignore_errors=True)
         print(name, json.dumps(res), flush=True)
 os.makedirs("/tmp/mutwork", exist_ok=True)
+# the checks run from a snapshot of the COMMITTED /verif, so that editing /verif meanwhile cannot disturb them
+SNAP = f"/tmp/mutwork/snap-{os.getpid()}"
+shutil.rmtree(SNAP, ignore_errors=True); os.makedirs(SNAP)
+rc, out = sh(f"git -C /verif archive HEAD | tar -x -C {SNAP} && cd {SNAP} && ./check setup")
+assert rc == 0, out
+import atexit
+atexit.register(lambda: shutil.rmtree(SNAP, ignore_errors=True))
 mpath = "/verif/seeded/MATRIX.json"
 matrix = json.load(open(mpath)) if os.path.exists(mpath) else {}
 with ThreadPoolExecutor(jobs) as ex:
